@@ -867,6 +867,9 @@ def gen_wkdibe(rng, n, tier):
         shown = sorted(base + [(i0, v0, False)]); hidden_ = sorted(base + [(i0, v0, True)])
         k_shown = S.key("wk_ndqualify", p0, k, shown, random=False); k_hidden = S.key("wk_ndqualify", p0, k, hidden_, random=False)
         a1 = S.adjustnd(k_shown, k, shown, hidden_); a2 = S.adjustnd(k_hidden, k, hidden_, shown)
+        # identifiers >= r on the same slot of both lists (they are reduced on copies: the caller's lists are const)
+        big1 = sorted(base + [(i0, R + 5, False)]); big2 = sorted(base + [(i0, (1 << 256) - 1, False)])
+        kb = S.key("wk_ndqualify", p0, k, big1, random=False); S.adjustnd(kb, k, big1, big2); S.adjustnd(kb, k, big1, big1)
         ct_set = S.encrypt(p0, shown); ct_unset = S.encrypt(p0, base)
         S.decrypt(ct_set, a2); S.decrypt(ct_set, a1, "ne"); S.decrypt(ct_unset, a1); S.decrypt(ct_unset, a2, "ne")
     # resampling
